@@ -111,7 +111,7 @@ def POSREADS(reads: A[float, 3], counts: A[int, 1], n_alleles: A[int, 1], P: int
 
 
 @contract("mchap.assemble.mutation.compound_step", machine_ints=True, props=["C15", "C09", "C01"], opt_result={"1": "cache"})
-def compound_step(genotype: A[i1, 2], reads: A[f8, 3], llk: float, n_alleles: A[i8, 1], log_unique_haplotypes: float, inbreeding: float, temp: float, read_counts: Opt[A[i8, 1]], cache: Opt[ArrayMap]) -> Tup[float, Opt[ArrayMap]]:
+def compound_step(genotype: A[i1, 2], reads: A[f8, 3], llk: float, n_alleles: A[iN, 1], log_unique_haplotypes: float, inbreeding: float, temp: float, read_counts: Opt[A[i8, 1]], cache: Opt[ArrayMap]) -> Tup[float, Opt[ArrayMap]]:
     requires(len(n_alleles) == genotype.shape[1])
     requires(len(genotype) * genotype.shape[1] <= 2 ** 48)  # A7 for the (ploidy*n_base, 2) table
     requires(len(genotype) <= 127, reads.shape[1] == genotype.shape[1])
